@@ -165,6 +165,7 @@ class WrapperModel(Model):
         if f[0] != 'lib':
             return False
         if f[1] in ('collections.Counter',):
+            self.stdlib_counter = True       # its update() ADDS counts (dict.update would set them)
             return True
         if ln in self.module.classes_by_name:
             ci = self.module.classes_by_name[ln][0]
@@ -190,6 +191,12 @@ class WrapperModel(Model):
                 outs.append(R(s2, None, tok, line))
             v = ('ev', 'eval', n)
             st.emit('EVAL', tuple(args) + tuple(kws), line, val=v, extra={'args': args, 'kws': kws})
+            # user code ran: a recursive (or concurrent) call through the same wrapper may have stored or evicted entries meanwhile - what was known about
+            # which keys are resident is known no longer
+            self.invalidate_resident(st)
+            if st.facts.get('size') == 'empty':
+                st.facts['size'] = None
+            st.facts['allabsent'] = False
             outs.append(R(st, v))
             return outs
         # --- key generation steps
